@@ -3,6 +3,7 @@ package props
 import (
 	"encoding/json"
 	"fmt"
+	"github.com/cosmos/cosmos-sdk/codec"
 	"sort"
 	"strings"
 	"time"
@@ -47,13 +48,14 @@ func init() {
 }
 
 type c10State struct {
-	rc    *RunCtx
-	c     *chain.Chain
-	m     *ftModel
-	acctS map[ftKey]string // generator bookkeeping: account string a with Owner == ownerKey(Address, a)
-	stale []ftOp           // references that used to be right (before an ownership move / delete)
-	names []string
-	tn    int
+	rc     *RunCtx
+	c      *chain.Chain
+	m      *ftModel
+	acctS  map[ftKey]string // generator bookkeeping: account string a with Owner == ownerKey(Address, a)
+	stale  []ftOp           // references that used to be right (before an ownership move / delete)
+	names  []string
+	tn     int
+	pgTick int
 }
 
 func ftObserve(c *chain.Chain) (map[string]ftEntry, error) {
@@ -779,6 +781,11 @@ func (s *c10State) checkQueries(op ftOp, obs map[string]ftEntry) bool {
 			rc.Fail("C10/file-query-differs", "after %s: File(%s,%s) = %+v, store/model = %+v", op.Kind, ftShort(k.Addr), ftShort(k.Owner), f, *e)
 			return false
 		}
+	}
+	// a client paging through the tree listing sees every entry exactly once (paging.go), every 5th step
+	s.pgTick++
+	if s.pgTick%5 == 0 {
+		checkPaging(rc, c, []listQuery{{Path: "/canine_chain.filetree.Query/AllFiles", Req: func() codec.ProtoMarshaler { return &fttypes.QueryAllFiles{} }, Resp: &fttypes.QueryAllFilesResponse{}}}, s.pgTick/5)
 	}
 	return true
 }
